@@ -151,7 +151,16 @@ func c14Eval(c *ctx, cs c14Case) {
 		h, _ := hex.DecodeString(cs.Header)
 		var t string
 		var b []byte
-		o := real.Try(func() { m := ast.NewHSMSControlMessage(h); t = m.Type(); b = m.ToBytes() })
+		hArg := make([]byte, 10, 16)
+		copy(hArg, h)
+		o := real.Try(func() {
+			m := ast.NewHSMSControlMessage(hArg)
+			for i := range hArg[:16] {
+				hArg[:16][i] ^= 0xC3 // the caller reuses its buffer
+			}
+			t = m.Type()
+			b = m.ToBytes()
+		})
 		want := ref.ControlType(h[4], h[5])
 		c.Note(rng.Hash64(h), h[4] != 0 || want != "undefined")
 		c.Class("type/" + want)
